@@ -20,6 +20,15 @@ Section Lift.
     | EHole => XHole
     | EBool b => XBool b
     | EString s => XString s
+    | EInterp parts =>
+        let si :=
+          (fix go (ps : list (ipart expr)) : str * list (texpr * option str * str) :=
+             match ps with
+             | [] => ([], [])
+             | PFixed s :: r => let (s0, it) := go r in (s ++ s0, it)
+             | PExpr a f :: r => let (s0, it) := go r in ([], (lift a, f, s0) :: it)
+             end) parts in
+        XInterp (fst si) (snd si)
     | EUn Negate a => XNeg (lift a)
     | EUn (Factorial n) a => XFact (pred n) (lift a)
     | EUn LogicalNeg a => XNot (lift a)
@@ -48,6 +57,7 @@ Section Lift.
         consistent callee && forallb consistent args
         && match callee with XIdent n | XUnit n => negb (is_fn n) | _ => true end
     | XBool _ | XString _ | XHole => true
+    | XInterp _ items => forallb (fun it => consistent (fst (fst it))) items
     | XIf c t f => consistent c && consistent t && consistent f
     | XList es => forallb consistent es
     | XStruct _ fields => forallb (fun fe => consistent (snd fe)) fields
@@ -72,6 +82,48 @@ Section Lift.
     (forall a, In a args -> lift (erase a) = a) -> map lift (map erase args) = args.
   Proof.
     intros args H. rewrite map_map. rewrite <- (map_id args) at 2. apply map_ext_in. exact H.
+  Qed.
+
+  (* the shape of the parts list is recovered: fixed texts that were dropped because they are empty
+     come back as empty texts *)
+  Fixpoint lift_parts (ps : list (ipart expr)) : str * list (texpr * option str * str) :=
+    match ps with
+    | [] => ([], [])
+    | PFixed s :: r => let (s0, it) := lift_parts r in (s ++ s0, it)
+    | PExpr a f :: r => let (s0, it) := lift_parts r in ([], (lift a, f, s0) :: it)
+    end.
+  Lemma lift_interp : forall parts, lift (EInterp parts) = XInterp (fst (lift_parts parts)) (snd (lift_parts parts)).
+  Proof. reflexivity. Qed.
+
+  Lemma lift_parts_fixed : forall s l,
+    lift_parts (filter nonempty_part (PFixed s :: l))
+    = (s ++ fst (lift_parts (filter nonempty_part l)), snd (lift_parts (filter nonempty_part l))).
+  Proof.
+    intros s l. cbn [filter]. destruct s as [|c s']; cbn [nonempty_part].
+    - cbn [app]. destruct (lift_parts (filter nonempty_part l)); reflexivity.
+    - cbn [lift_parts]. destruct (lift_parts (filter nonempty_part l)); reflexivity.
+  Qed.
+
+  Lemma lift_parts_expr : forall a f l,
+    lift_parts (filter nonempty_part (PExpr a f :: l))
+    = ([], (lift a, f, fst (lift_parts (filter nonempty_part l))) :: snd (lift_parts (filter nonempty_part l))).
+  Proof.
+    intros a f l. cbn [filter nonempty_part lift_parts].
+    destruct (lift_parts (filter nonempty_part l)); reflexivity.
+  Qed.
+
+  Lemma lift_parts_items : forall items,
+    (forall a f s, In (a, f, s) items -> lift (erase a) = a) ->
+    lift_parts (filter nonempty_part
+      (flat_map (fun it : texpr * option str * str =>
+                   [PExpr (erase (fst (fst it))) (snd (fst it)); PFixed (snd it)]) items))
+    = ([], items).
+  Proof.
+    induction items as [|[[a f] s] r IH]; intros H; [reflexivity|].
+    cbn [flat_map fst snd app].
+    rewrite lift_parts_expr, lift_parts_fixed.
+    rewrite IH by (intros b g t Hb; apply (H b g t); right; exact Hb).
+    cbn [fst snd]. rewrite app_nil_r. rewrite (H a f s (or_introl eq_refl)). reflexivity.
   Qed.
 
   Theorem lift_erase : forall n e, tsize e < n -> consistent e = true -> lift (erase e) = e.
@@ -112,6 +164,12 @@ Section Lift.
         destruct (is_two e2); [|destruct (is_three e2)]; cbn [lift] in *; rewrite Ec, EA; reflexivity.
     - reflexivity.
     - reflexivity.
+    - (* XInterp *)
+      cbn [erase]. rewrite lift_interp. rewrite lift_parts_fixed.
+      rewrite lift_parts_items.
+      + cbn [fst snd]. rewrite app_nil_r. reflexivity.
+      + intros a f s Ha. apply IHn; [pose proof (tsize_in_items a f s _ Ha); lia|].
+        eapply forallb_forall in Hc; [|exact Ha]. exact Hc.
     - (* XIf *)
       apply andb_prop in Hc. destruct Hc as [Hc H3]. apply andb_prop in Hc. destruct Hc as [H1 H2].
       simpl. rewrite (IHn e1 ltac:(lia) H1), (IHn e2 ltac:(lia) H2), (IHn e3 ltac:(lia) H3). reflexivity.
